@@ -39,6 +39,8 @@
 (*   t2stack  cff/t2decode.go:525-549   index / roll on the operand stack  *)
 (*   sum32    a + b > limit guards formed in 32-bit arithmetic (overflow)   *)
 (*   fixedtab counts / indices against tables of fixed size in the decoder *)
+(*   prodcap  product of two counts as an array capacity (GPOS 2.2/4/5/6)   *)
+(*   t2op     generator: every Type 2 operator with operands at extremes   *)
 (*   sum      aggregate limits: k records, each within its own limit       *)
 (*            (cmap 12 groups, coverage ranges, name records, kern         *)
 (*            subtables), whose total must stay within the table's limit   *)
@@ -188,9 +190,11 @@ Sum32Trouble(r) ==
 (*   sid    : 391 standard strings; a SID beyond them needs a custom string*)
 (*   stack  : 48 operands on the charstring stack (t2decode.go:116)        *)
 (*   postmac: 258 Macintosh glyph names of a format 2 "post" table         *)
+(*   nest   : subroutine calls nested 10 deep (t2decode.go:646)            *)
 FixLen(t) == CASE t = "charset0" -> 229 [] t = "charset1" -> 166 [] t = "charset2" -> 87
                [] t = "enc0" -> 256 [] t = "enc1" -> 256 [] t = "sid" -> 391 [] t = "stack" -> 48 [] t = "postmac" -> 258
-FixDom == [tab : {"charset0", "charset1", "charset2", "enc0", "enc1", "sid", "stack", "postmac"}, d : -2..2,
+               [] t = "nest" -> 10
+FixDom == [tab : {"charset0", "charset1", "charset2", "enc0", "enc1", "sid", "stack", "postmac", "nest"}, d : -2..2,
            enc : {0, 1}]
 FixN(r) == FixLen(r.tab) + r.d
 \* counts (charset*, enc*, stack) are accepted up to the table length; indices (sid, postmac) below it
@@ -256,7 +260,7 @@ T2STrouble(r) == T2SAccept(r) /\ ~InB({r.m}, IF r.o = "put" THEN 32 ELSE T2SLen(
 
 (* t2stack: depth operands lie below the arguments of index (n) or roll    *)
 (* (n j).                                                                  *)
-T2KDom == [o : {"index", "roll"}, depth : 0..4, n : -2..6, j : {-1, 0, 1, 5}]
+T2KDom == [o : {"index", "roll"}, depth : 0..4, n : -2..6, j : -9..9]
 T2KAccept(r) ==
   IF r.o = "index"
     THEN LET idx == IF r.n < 0 THEN 0 ELSE r.n IN ~(r.depth - idx - 1 < 0)        \* :530-535
@@ -281,26 +285,55 @@ SumAccept(r) == SumDone(r) = r.k
 SumTrouble(r) == IF r.kind \in {"cmap12", "cover"} THEN SumDone(r) * r.pct > 100
                  ELSE r.k * r.pct > 64 * (r.pct + r.k)     \* shared data: input = one record's data + k headers
 
+(* prodcap: two counts c1, c2 from the file whose PRODUCT sizes an array  *)
+(* (anchor matrices of GPOS 4/5/6, class matrices of GPOS 2.2), at 3 bits; *)
+(* avail = entries actually present in the (short) table.                  *)
+(*   grow : the array grows by one entry per entry read (gpos5.go:107-114) *)
+(*   cap  : the product is refused above a fixed bound before make()       *)
+(*          (gpos4.go:83, gpos6.go, gpos.go:513: Cap scaled to 12)         *)
+(* Trouble: more entries allocated than are present resp. than the bound.  *)
+ProdDom == [kind : {"grow", "cap"}, c1 : 0..M3-1, c2 : 0..M3-1, avail : 0..12]
+ProdCap == 12
+ProdAlloc(r) == IF r.kind = "grow" THEN (IF r.c1 * r.c2 <= r.avail THEN r.c1 * r.c2 ELSE r.avail)
+                ELSE (IF r.c1 * r.c2 > ProdCap THEN 0 ELSE r.c1 * r.c2)
+ProdAccept(r) == IF r.kind = "grow" THEN r.c1 * r.c2 <= r.avail ELSE r.c1 * r.c2 <= ProdCap /\ r.c1 * r.c2 <= r.avail
+ProdTrouble(r) == IF r.kind = "grow" THEN ProdAlloc(r) > r.avail ELSE ProdAlloc(r) > ProdCap
+
+(* t2op: charstring CONTENT as untrusted bytes.  This "guard" is a pure     *)
+(* generator: every operator of the Type 2 decoder, preceded by d filler   *)
+(* operands and two operands a b taken from the extremes of every operand  *)
+(* domain (roll/index counts, put/get indices, subroutine numbers around   *)
+(* the bias -107, stack depth around 48).  Nothing is predicted; the real  *)
+(* decoder must return a value or an error within the allocation bound.    *)
+T2Ops == {1, 3, 4, 5, 6, 7, 8, 10, 11, 14, 18, 19, 20, 21, 22, 23, 24, 25, 26, 27, 29, 30, 31,
+          1200, 1203, 1204, 1205, 1209, 1210, 1211, 1212, 1214, 1215, 1218, 1220, 1221, 1222, 1223, 1224, 1226,
+          1227, 1228, 1229, 1230, 1234, 1235, 1236, 1237}
+T2Ext == {-1131, -108, -107, -106, -105, -4, -1, 0, 1, 2, 3, 31, 32, 48, 1131}
+T2StackOps == {10, 29, 19, 20, 1218, 1220, 1221, 1227, 1228, 1229, 1230}   \* always replayed completely
+T2ODom == [op : T2Ops, d : {0, 2, 4, 47}, a : T2Ext, b : T2Ext]
+
 ---------------------------------------------------------------------------
 Names == {"dir", "cmap", "cmap4", "cmap4seg", "cmap12", "index", "cffpriv", "loca", "simple", "cover", "classdef", "gpos5",
-          "t2store", "t2stack", "sum", "sum32", "fixedtab"}
+          "t2store", "t2stack", "sum", "sum32", "fixedtab", "prodcap", "t2op"}
 Dom(n) == CASE n = "dir" -> DirDom [] n = "cmap" -> CmapDom [] n = "cmap4" -> C4Dom [] n = "cmap4seg" -> C4SDom
             [] n = "cmap12" -> C12Dom [] n = "index" -> IdxDom [] n = "cffpriv" -> PrivDom [] n = "loca" -> LocaDom
             [] n = "simple" -> SimDom [] n = "cover" -> CovDom [] n = "classdef" -> ClsDom [] n = "gpos5" -> G5Dom
             [] n = "t2store" -> T2SDom [] n = "t2stack" -> T2KDom [] n = "sum" -> SumDom
-            [] n = "sum32" -> Sum32Dom [] n = "fixedtab" -> FixDom
+            [] n = "sum32" -> Sum32Dom [] n = "fixedtab" -> FixDom [] n = "prodcap" -> ProdDom [] n = "t2op" -> T2ODom
 Accept == CASE g = "dir" -> DirAccept(x) [] g = "cmap" -> CmapAccept(x) [] g = "cmap4" -> C4Accept(x)
             [] g = "cmap4seg" -> C4SAccept(x) [] g = "cmap12" -> C12Accept(x) [] g = "index" -> IdxAccept(x)
             [] g = "cffpriv" -> PrivAccept(x) [] g = "loca" -> LocaAccept(x) [] g = "simple" -> SimAccept(x)
             [] g = "cover" -> CovAccept(x) [] g = "classdef" -> ClsAccept(x) [] g = "gpos5" -> G5Accept(x)
             [] g = "t2store" -> T2SAccept(x) [] g = "t2stack" -> T2KAccept(x) [] g = "sum" -> SumAccept(x)
-            [] g = "sum32" -> Sum32Accept(x) [] g = "fixedtab" -> FixAccept(x)
+            [] g = "sum32" -> Sum32Accept(x) [] g = "fixedtab" -> FixAccept(x) [] g = "prodcap" -> ProdAccept(x)
+            [] g = "t2op" -> TRUE
 Trouble == CASE g = "dir" -> DirTrouble(x) [] g = "cmap" -> CmapTrouble(x) [] g = "cmap4" -> C4Trouble(x)
             [] g = "cmap4seg" -> C4STrouble(x) [] g = "cmap12" -> C12Trouble(x) [] g = "index" -> IdxTrouble(x)
             [] g = "cffpriv" -> PrivTrouble(x) [] g = "loca" -> LocaTrouble(x) [] g = "simple" -> SimTrouble(x)
             [] g = "cover" -> CovTrouble(x) [] g = "classdef" -> ClsTrouble(x) [] g = "gpos5" -> G5Trouble(x)
             [] g = "t2store" -> T2STrouble(x) [] g = "t2stack" -> T2KTrouble(x) [] g = "sum" -> SumTrouble(x)
-            [] g = "sum32" -> Sum32Trouble(x) [] g = "fixedtab" -> FixTrouble(x)
+            [] g = "sum32" -> Sum32Trouble(x) [] g = "fixedtab" -> FixTrouble(x) [] g = "prodcap" -> ProdTrouble(x)
+            [] g = "t2op" -> FALSE
 
 Init == g \in Names /\ x \in Dom(g)
 Next == UNCHANGED vars
@@ -323,7 +356,9 @@ Key == CASE g = "dir" -> x.o1 + 3 * x.l1 + 5 * x.o2 + 7 * x.l2 + x.F
 \* small guards are replayed completely
 Sampled == Sample > 0 /\ (g \in {"simple", "gpos5", "classdef", "t2store", "t2stack", "sum", "fixedtab", "cffpriv"}
                           \/ (g = "sum32" /\ (x.a \in {-8, -1, 1, 6, 7} \/ x.b \in {-8, -1, 6, 7}))
-                          \/ (g # "sum32" /\ Key % Sample = 0))
+                          \/ (g = "prodcap" /\ (x.c1 \in {0, 1, 6, 7} /\ x.c2 \in {0, 1, 6, 7}) /\ x.avail \in {0, 2, 12})
+                          \/ (g = "t2op" /\ (x.op \in T2StackOps \/ (x.a + 2 * x.b + x.d + x.op) % 4 = 0))
+                          \/ (g \notin {"sum32", "prodcap", "t2op"} /\ Key % Sample = 0))
 
 \* every hole is printed; the (very many) holes of "dir" are all of one kind -- the uint32 sum
 \* offset + length wraps -- so only every 23rd is replayed and the others are just counted
@@ -336,6 +371,6 @@ Emit == IF Trouble
 \* The guards that TLC is expected to prove hole-free at this word size (checked as an
 \* invariant in GuardsProved.cfg; the others are known or suspected holes and are only emitted).
 Proved == {"cmap", "cmap4", "cmap4seg", "cmap12", "index", "loca", "cover", "classdef", "t2store", "t2stack", "sum",
-           "cffpriv", "fixedtab"}
+           "cffpriv", "fixedtab", "prodcap", "t2op"}
 NoHole == g \in Proved => ~Trouble
 =============================================================================
